@@ -342,10 +342,17 @@ class SFTPServer(BaseSFTP, SubsystemHandler):
                         request_number, data, "Unable to hash file"
                     )
                     return
+                if len(data) == 0:
+                    # end of file: the range ends here
+                    break
                 hash_obj.update(data)
                 count += len(data)
                 offset += len(data)
+            if count == 0:
+                break
             sum_out += hash_obj.digest()
+            if count < blocklen:
+                break
 
         msg = Message()
         msg.add_int(request_number)
